@@ -122,7 +122,7 @@ theorem triviaLoop_ok {buf : Bytes} {np : Bool} {fuel pos : Nat} {cs : List Comm
     (hcs : CommentsOK buf p0 cs) (hle : lastEnd p0 cs = pos) :
     CommentsOK buf p0 cs' ∧ pos ≤ lastEnd p0 cs' ∧ lastEnd p0 cs' ≤ pos' ∧ pos' ≤ buf.length ∧
     space = slice buf (lastEnd p0 cs') pos' ∧
-    (he = true → space = [] ∧ lastEnd p0 cs' = pos' ∧ pos < pos' ∧ np = true) := by
+    (he = true → pos' < buf.length ∧ np = true) := by
   induction fuel generalizing pos cs with
   | zero => simp [triviaLoop] at h
   | succ fuel ih =>
@@ -148,23 +148,17 @@ theorem triviaLoop_ok {buf : Bytes} {np : Bool} {fuel pos : Nat} {cs : List Comm
           · rename_i raw hraw
             obtain ⟨hr1, hr2, hr3⟩ := slice?_some hraw
             have hn0' : n ≠ 0 := by simpa using hn0
-            have happ := CommentsOK_append (c := { space := space1, raw := raw, pos := pos + skipSpaces (buf.length + 1) (List.drop pos buf), «end» := pos + skipSpaces (buf.length + 1) (List.drop pos buf) + n })
-              hcs (by simp; omega) (by simp; omega) (by simpa using hr2) (by simp [hle, hs3]) (by simpa using hr3)
             split at h
             · rename_i hhe
               cases h
               have hnp : np = true := skipComment_err_np (by rw [hsc, hhe])
-              refine ⟨happ.1, ?_, ?_, hr2, ?_, ?_⟩
-              · rw [happ.2]; simp; omega
-              · rw [happ.2]; simp
-              · rw [happ.2]; simp [slice_self]
-              · intro _; rw [happ.2]; simp; exact ⟨by omega, hnp⟩
-            · have := ih h happ.1 (by rw [happ.2])
+              refine ⟨hcs, by omega, by omega, hs2, ?_, fun _ => ⟨by omega, hnp⟩⟩
+              rw [hle]; exact hs3
+            · have happ := CommentsOK_append (c := { space := space1, raw := raw, pos := pos + skipSpaces (buf.length + 1) (List.drop pos buf), «end» := pos + skipSpaces (buf.length + 1) (List.drop pos buf) + n })
+                hcs (by simp; omega) (by simp; omega) (by simpa using hr2) (by simp [hle, hs3]) (by simpa using hr3)
+              have := ih h happ.1 (by rw [happ.2])
               obtain ⟨a, b, c, d, e, f⟩ := this
-              refine ⟨a, by omega, c, d, e, ?_⟩
-              intro hh
-              obtain ⟨f1, f2, f3, f4⟩ := f hh
-              exact ⟨f1, f2, by omega, f4⟩
+              exact ⟨a, by omega, c, d, e, f⟩
 
 /-- What one successful `nextToken` guarantees about the new token relative to the buffer. -/
 structure Frame (buf : Bytes) (s s' : State) : Prop where
@@ -191,10 +185,14 @@ theorem nextTokenCore_frame {buf : Bytes} {np : Bool} {s s' : State}
     have tb := triviaBytes_tile i1
     split at h
     · rename_i hhe
-      cases h
-      obtain ⟨j1, j2, _, _⟩ := i6 hhe
-      refine ⟨by simp; omega, i4, i1, ?_, ?_, ?_, ?_, ?_, ?_⟩ <;> simp [slice_self, j2, tb]
-      done
+      split at h
+      · cases h
+      · rename_i raw hraw
+        cases h
+        obtain ⟨r1, r2, r3⟩ := slice?_some hraw
+        refine ⟨by simp only; omega, Nat.le_refl _, i1, i5, i3, r3, r1, rfl, ?_⟩
+        simp only
+        rw [tb, i5, r3, slice_append buf i2 i3, slice_append buf (by omega) r1]
     · split at h
       · cases h
       · cases h
